@@ -3128,6 +3128,15 @@ class NetCDFRead(IORead):
 
         bounds_ncvar = g["variable_attributes"][coord_ncvar].get("bounds")
 
+        if (
+            bounds_ncvar is not None
+            and bounds_ncvar not in g["internal_variables"]
+        ):
+            # The bounds variable does not exist (which is reported
+            # when the bounds of the coordinate construct are
+            # created), so treat the coordinate as having no bounds.
+            bounds_ncvar = None
+
         if bounds_ncvar is None:
             # --------------------------------------------------------
             # Parametric Z coordinate does not have bounds
@@ -3216,6 +3225,11 @@ class NetCDFRead(IORead):
                     parent_ncvar = g["formula_terms"][coord_ncvar]["coord"][
                         term
                     ]
+                    if parent_ncvar is None:
+                        # The corresponding formula terms variable of
+                        # the coordinate variable could not be found
+                        # (which has already been reported)
+                        continue
 
                     d_ncdims = g["variable_dimensions"][parent_ncvar]
                     dimensions = g["variable_dimensions"][ncvar]
@@ -3293,6 +3307,11 @@ class NetCDFRead(IORead):
                     "coord"
                 ].items():
                     g["formula_terms"][coord_ncvar]["bounds"][term] = None
+
+                    if ncvar is None:
+                        # The formula terms variable could not be
+                        # found (which has already been reported)
+                        continue
 
                     if z_ncdim not in self._ncdimensions(ncvar):
                         g["formula_terms"][coord_ncvar]["bounds"][term] = ncvar
